@@ -121,6 +121,30 @@ CHECKS["C17"] = (
     "order reproduces the graph.",
     "Trusted: refgraph.subgraph/compose/components.", "DESIGN.md 5/C17")
 
+CHECKS["C07"] = (
+    "exhaustive enumeration of atom permutations x a finite rigid-motion / reflection / noise grid; differential oracle",
+    "Guarded geometries (templates of all five perception paths, repository XYZ data, embedded organics) under ALL atom "
+    "permutations up to 7 atoms (families above), the 24 cube rotations composed with a generic rotation and translation, three "
+    "reflections and three noise levels; the perceived graph renamed back must have the same bonds and spatially identical "
+    "descriptors (mirror images under reflection) and every descriptor must name the centre and exactly its bonded neighbours; "
+    "reaction triples with independently moved geometries.",
+    "Trusted: harness-side general-position guard and refstereo; a finite grid of a continuum (VERIF_SEED picks the generic "
+    "motions and noise vectors).", "DESIGN.md 5/C07")
+CHECKS["C18"] = (
+    ENUM + " (all connectivity matrices n<=4 x element lists; all valence-complete molecules up to 3/4 heavy atoms x atom orders)",
+    "Structural part on every symmetric 0/1 matrix with n<=4 and every element list; chemical part on every connected neutral "
+    "closed-shell multigraph of <=3 (thorough 4) heavy atoms from C,N,O,S(II/VI),P(III/V),halogens with H filled in, plus 28 "
+    "listed aromatic/cumulated systems, each in all atom orders (small) or shifts/reversal/transpositions: standard valences, no "
+    "charges, no radicals, support equals connectivity.",
+    "Trusted: the enumerator's valence bookkeeping; 215 exotic hypervalent molecules of the thorough tier are listed in "
+    "known_findings.json.", "DESIGN.md 5/C18")
+CHECKS["C20"] = (
+    ENUM + " (value grid x element cycle x comment lines; all 118x118 element pairs at both sides of the cut-off)",
+    "XYZ write/read round trip over a coordinate value grid (signs, magnitudes up to 1e6, half-ulp-of-print cases), all 118 "
+    "elements, 1..40 atoms and 11 comment lines; distance connectivity for all 13924 element pairs just below/above the cut-off "
+    "through the matrix API, the scalar API and MolGraph.from_geometry; invariance under rigid motion and atom permutation.",
+    "Trusted: the covalent radii table (read as data).", "DESIGN.md 5/C20")
+
 NOT_YET = {
 }
 
